@@ -37,6 +37,8 @@ func runC04(c *an.Ctx) {
 	r044(c)
 	r045(c)
 	r046(c, "R04.6")
+	r034(c, "R04.7")
+	c.Min("R04.7", 5)
 	c.Min("R04.1", 6)
 	c.Min("R04.2", 3)
 	c.Min("R04.3", 3)
@@ -426,8 +428,9 @@ func isRangeIndex(v ssa.Value) bool {
 }
 
 // r045: skips only by configuration.
-func r045(c *an.Ctx) {
-	const rule = "R04.5"
+func r045(c *an.Ctx) { r045as(c, "R04.5") }
+
+func r045as(c *an.Ctx, rule string) {
 	for _, t := range [][2]string{{"Value", "Pull"}, {"Collection", "Pull"}} {
 		fn := mustFunc(c, rule, resPkg, t[0], t[1])
 		if fn == nil {
